@@ -417,6 +417,69 @@ func checkPages(sc *Scenario, w, l *OpResult, active []int) []Issue {
 			out = append(out, Issue{"break:avoid-after", "break-after", fmt.Sprintf("%q has break-after: avoid but the next box (%q) starts on page %d instead of %d", kw[0], kw[1], pb+1, pa+1)})
 		}
 	}
+	// page margins by side / first / blank (from the laid-out page boxes)
+	if l != nil && l.Status == "ok" && len(e.PageMargins) > 0 && len(l.PageGeom) == n {
+		for p, g := range l.PageGeom {
+			side := "right"
+			if p%2 == 1 {
+				side = "left"
+			}
+			kind := side
+			if !hasContent[p] && p > 0 && p < n-1 {
+				kind = "blank-" + side
+			} else if p == 0 {
+				kind = "first"
+			}
+			want, ok := e.PageMargins[kind]
+			if !ok {
+				continue
+			}
+			got := [4]float64{g.MT, g.MR, g.MB, g.ML}
+			for i := range want {
+				if !approx(got[i], want[i]) {
+					out = append(out, Issue{"page:margins", kind, fmt.Sprintf("page %d (%s) has margins %v (top right bottom left), the matching @page rules give %v", p+1, kind, got, want)})
+					break
+				}
+			}
+		}
+	}
+	// a page ending in the middle of a paragraph is filled to the last line that fits
+	if l != nil && l.Status == "ok" && e.FillPages && len(e.Paras) > 0 && len(w.PageLines) == n && len(l.PageGeom) == n {
+		paraOf := map[string]int{}
+		for i, para := range e.Paras {
+			for _, x := range para {
+				paraOf[x] = i
+			}
+		}
+		lastPara := func(p int) int { // paragraph of the last main-flow line of page p
+			for li := len(w.PageLines[p]) - 1; li >= 0; li-- {
+				for _, x := range w.PageLines[p][li].Words {
+					if i, ok := paraOf[x]; ok {
+						return i
+					}
+				}
+			}
+			return -1
+		}
+		firstPara := func(p int) int {
+			for _, ln := range w.PageLines[p] {
+				for _, x := range ln.Words {
+					if i, ok := paraOf[x]; ok {
+						return i
+					}
+				}
+			}
+			return -2
+		}
+		for p := 0; p+1 < n; p++ {
+			if lastPara(p) >= 0 && lastPara(p) == firstPara(p+1) {
+				g := l.PageGeom[p]
+				if left := g.ContentBottom - g.MaxLineBottom; left >= e.LineHeight-0.01 {
+					out = append(out, Issue{"page:underfull", "mid-paragraph", fmt.Sprintf("page %d ends in the middle of a paragraph with %gpx unused, although one more %gpx line fits", p+1, left, e.LineHeight)})
+				}
+			}
+		}
+	}
 	// geometry from the laid-out tree
 	if l != nil && l.Status == "ok" && e.Geometry {
 		for p, g := range l.PageGeom {
